@@ -1016,6 +1016,11 @@ func main() {
 	sb.WriteString("]\n\nend RoGen.Catalogue\n")
 	if *out != "" {
 		os.MkdirAll(*out, 0o755)
+	}
+	for _, t := range extraTables {
+		t(*repo, *out)
+	}
+	if *out != "" {
 		writeIfChanged(filepath.Join(*out, "Catalogue.lean"), sb.String())
 		js, _ := json.MarshalIndent(facts, "", " ")
 		writeIfChanged(filepath.Join(*out, "catalogue.json"), string(js)+"\n")
